@@ -534,6 +534,23 @@ static void __attribute__((noinline)) streams_build(long n) {
   }
 }
 
+/* an Array concatenated with ITSELF whose element type allocates through the collector when it is assigned (every copy gets a
+   Node of its own): collections run in the middle of the doubling; the copies already built are reachable through the Array */
+struct CellN { var node; };
+static long cell_next_id;
+static void CellN_Assign(var self, var obj) { struct CellN* c = self; (void)obj; c->node = new(Node, $I(cell_next_id++)); }
+var CellN = Cello(CellN, Instance(Assign, CellN_Assign));
+static long __attribute__((noinline)) selfcat_run(long n) {
+  long bad = 0; cell_next_id = 1000;
+  var a = new(Array, CellN);
+  for (long i = 0; i < n; i++) push(a, $(CellN, NULL));
+  concat(a, a);
+  if ((long)len(a) != 2 * n || cell_next_id != 1000 + 2 * n) bad++;
+  for (long i = 0; i < 2 * n; i++) if (fin_count[1000 + i]) bad++;
+  for (long i = 0; i < (long)len(a); i++) { struct CellN* c = get(a, $I(i)); if (!c->node || fin_count[1000 + i]) { bad++; continue; } if (((struct Node*)c->node)->id != 1000 + i) bad++; }
+  return bad;
+}
+
 /* a heap Tuple filled from a source whose items are made while it is filled (a Map whose function allocates): collections run in
    the middle of the fill; every item must be alive and right afterwards.  how: 0 concat, 1 the constructor, 2 assign */
 static var fill_fn(var x) { return new(Int, $I(c_int(x) + 1)); }
@@ -847,6 +864,11 @@ static int __attribute__((noinline)) real_main(int argc, char** argv) {
       HC_TRY(streams_build(n); scrub(); do_collect(0); do_collect(1); do_collect(0));
       long twice = 0, gone = 0; for (long i = 0; i < n; i++) { if (fin_count[1000 + i] > 1) twice++; if (fin_count[1000 + i] == 1) gone++; }
       ev_begin("bulk"); ev_int("n", n); ev_int("rooted", 0); ev_int("lost", 0); ev_int("twice", twice); ev_int("stale", 0); ev_int("gone", gone);
+      ev_str("exc", hc_exc); ev_int("line", cur_line); ev_end();
+    } else if (hc_is(0, "selfcat")) {          /* selfcat <n> */
+      long n = (long)hc_int(1); if (n > 8000) n = 8000; volatile long bad = -1; bulkn = 2 * n;
+      HC_TRY(bad = selfcat_run(n); scrub(); do_collect(0); do_collect(1));
+      ev_begin("bulk"); ev_int("n", 2 * n); ev_int("rooted", 1); ev_int("lost", bad); ev_int("twice", 0); ev_int("stale", 0); ev_int("gone", 0);
       ev_str("exc", hc_exc); ev_int("line", cur_line); ev_end();
     } else if (hc_is(0, "tuplefill")) {
       long n = (long)hc_int(1); int how = (int)hc_int(2); volatile long bad = -1; bulkn = 0;
